@@ -52,6 +52,14 @@ FINDING_SITES = {
 }
 
 
+# Finding that depends on where the rename is issued (the cursor), not on where occurrences are missed.
+CURSOR_FINDING_SITES = {
+    "pkg_instance_ref": "rename issued on a reference through a package instance (`inst.f`, `inst.c`): the instance entity is "
+                        "InstanceOf(declaration) and unrelated to the body-side entity, so the body name, its end identifier, "
+                        "the full declaration of a deferred constant and the uses inside the package body are missed",
+}
+
+
 # ----------------------------------------------------------------------------------------------
 # text helpers (independent of the model)
 # ----------------------------------------------------------------------------------------------
@@ -394,7 +402,7 @@ def main(tier, replay=None):
         nproj = 60 if tier == "quick" else 150
         plan = [(seed(), i, family_of(seed(), i)) for i in range(nproj)]
         only_ent = None
-        limit = 8 if tier == "quick" else None
+        limit = 6 if tier == "quick" else None
     corpus = load_corpus()
     if replay:
         corpus = [c for c in corpus if rp["seed"] == "corpus" and c["idx"] == rp["idx"]]
@@ -452,9 +460,18 @@ def main(tier, replay=None):
                 ents = [x for x in g["ents"] if x.id == only_ent]
             reqs = []
             for x in ents:
+                # rename from the declaration, every further defining occurrence (body / full declaration), every end
+                # identifier and one reference per file (one of them through a package instance where there is one);
+                # every one of these requests must produce the same (expected) edit set
                 decl = [o for o in x.occs if o.role == "d"][0]
-                others = [o for o in x.occs if o is not decl]
-                for o in [decl] + ([R.choice(others)] if others else []):
+                cur = [decl] + [o for o in x.occs if o.role in ("d", "e") and o is not decl]
+                by_file = {}
+                for o in x.occs:
+                    if o.role == "r":
+                        by_file.setdefault((o.file, o.site == "pkg_instance_ref"), []).append(o)
+                for k_ in sorted(by_file):
+                    cur.append(R.choice(by_file[k_]))
+                for o in cur:
                     k = R.choice([0, 0, R.randrange(0, o.c1 - o.c0 + 1), o.c1 - o.c0])
                     reqs.append({"file": o.file, "line": o.line, "char": o.c0 + k, "rename": True, "ent": x, "occ": o})
             for m in g["marks"]:
@@ -615,6 +632,8 @@ def main(tier, replay=None):
                             site = x.finding
                         elif len(sites) == 1 and list(sites)[0] in FINDING_SITES:
                             site = list(sites)[0]
+                        elif o.site in CURSOR_FINDING_SITES and sites == {""}:
+                            site = o.site
                     if site and site in known:
                         stats["known_finding_cases"][site] = stats["known_finding_cases"].get(site, 0) + 1
                         res.count_case("known:%s:%s:%s" % (g.get("idx"), x.id, site), True)
@@ -626,7 +645,8 @@ def main(tier, replay=None):
                     if extra:
                         what.append("(iv) %d edit(s) touch text that is not an occurrence of the entity: %s" % (len(extra), sorted(extra)[:4]))
                     if site:
-                        what.append("[finding site `%s`: %s — no open entry in known_findings.json]" % (site, FINDING_SITES[site]))
+                        what.append("[finding site `%s`: %s — no open entry in known_findings.json]" % (
+                            site, FINDING_SITES.get(site) or CURSOR_FINDING_SITES[site]))
                     violation("; ".join(what), replay_obj(g, rq, {"edits": sorted(flat), "expected": sorted(expected), "site": site}))
                     continue
                 key = tuple(sorted(flat))
@@ -851,8 +871,8 @@ def main(tier, replay=None):
         "overloaded functions with declaration+body, procedures, ports/generics with named association, components, "
         "entities/architectures/packages/configurations referenced across files, labels, record elements, overloaded enumeration "
         "literals, aliases, attributes, hidden and prefix-sharing names, mixed-case spellings, names inside comments and strings, "
-        "UTF-16 columns behind supplementary-plane characters in files opened by the client); quick: 60 projects x 8 entities "
-        "(round-robin over kinds) x 2 cursors, thorough: 150 projects x every entity x 2 cursors; a case is non-trivial when the "
+        "UTF-16 columns behind supplementary-plane characters in files opened by the client); quick: 60 projects x (6 entities round-robin over kinds + the cross-file and finding-site entities) "
+        "(round-robin over kinds) x every occurrence kind as cursor (declaration, body, end identifier, one reference per file), thorough: 150 projects x every entity likewise; a case is non-trivial when the "
         "rename produces at least two edits; distinct by project, entity and edit set")
     res.coverage["explanation"] = (
         "level=other: the THEOREM half covers the edit algebra (simultaneous replacement, order independence, bytes outside the "
